@@ -92,16 +92,12 @@ def tokenize(text, string_escape="smt26"):
                 while k < n and text[k].isdigit():
                     k += 1
                 tok = text[i:k]
-                if len(text[i:j]) > 1 and text[i] == "0":
-                    raise LexError("leading zero in decimal " + tok)
                 if k < n and text[k] in SYMCH:
                     raise LexError("bad token after decimal " + tok)
                 yield Atom("dec", tok)
                 i = k
             else:
                 tok = text[i:j]
-                if len(tok) > 1 and tok[0] == "0":
-                    raise LexError("leading zero in numeral " + tok)
                 if j < n and text[j] in SYMCH:
                     raise LexError("bad token after numeral " + tok)
                 yield Atom("num", tok)
